@@ -39,6 +39,8 @@ func allFamilies(tier string) []*goprog.Family {
 		// the small families whose cases may hang (20 s watchdog) go first, so that the wait overlaps with the rest
 		f9PlainFamily(),
 		listFamily("F6.templates", f6Cases()),
+		f10TransferFamily(),
+		f10ArrayExprFamily(),
 		f4Family(tier),
 		f1Family(tier),
 		listFamily("F2.strings", f2Cases(tier)),
